@@ -1,4 +1,5 @@
 import Sif.Model.EthBridge
+import Sif.Spec.C05
 /-
   C06 — each bridged Ethereum event is credited at most once, as agreed.  Decidable statements over
   balance / supply views (`Nat → String → Nat`, `String → Nat`) restricted to a list of keys: the theorems
@@ -40,6 +41,23 @@ def creditStep (ok : Bool) (sb sa : StatusText) (final : Content)
     | some c => creditedOn c bb ba sB sA keys denoms
     | none => false
   else sameOn bb ba sB sA keys denoms
+
+/-- The contents, among those the validators' accepted claim MESSAGES carried (`msgs`: validator ↦ content as sent), that
+    hold the threshold now: 10 · support ≥ 7 · total > 0 over currently whitelisted bonded validators. -/
+def winners (vals : List Validator) (wl : List Nat) (msgs : List (Nat × Content)) : List Content :=
+  ((msgs.map (·.2)).eraseDups).filter (fun c =>
+    decide (7 * Spec.C05.total vals wl ≤ 10 * Spec.C05.support vals wl msgs c) && decide (0 < Spec.C05.total vals wl))
+
+/-- What a claim message credited is judged against the claim messages themselves, not against the stored final claim:
+    either nothing moved, or exactly the credit of a content that the validators' messages carried and that holds the
+    threshold (receiver, amount and symbol as the validators sent them). -/
+def creditFromMessages (vals : List Validator) (wl : List Nat) (msgs : List (Nat × Content))
+    (bb ba : BalView) (sB sA : SupView) (keys : List (Nat × String)) (denoms : List String) : Bool :=
+  sameOn bb ba sB sA keys denoms ||
+  (winners vals wl msgs).any (fun c =>
+    match creditOf c with
+    | some cr => creditedOn cr bb ba sB sA keys denoms
+    | none => false)
 
 /-- Ledger over a history: the credits observed for one prophecy id (each a list of balance deltas and a list
     of supply deltas) are either none, or a single one that equals the credit of the final claim of a
